@@ -127,27 +127,33 @@ def budget():
     }
 
 
-def law_tolerance(k, eps_code, eps_leak, c):
-    """Bound on |p_impl(o) - p_qubit(o)| for every outcome o of a circuit with k heralded CZs.
-
-    Write each heralded CZ as c*(CZ + E) on code states, ||E|| <= eps := eps_code + eps_leak
-    (leaked part included).  Everything between the CZs is a contraction; a later heralded CZ maps
-    an arbitrary (possibly non-code) component with norm <= 1 = (1/c)*c, i.e. it can amplify an
-    error component by at most g = 1/c relative to the code component.  So the unnormalised final
-    vector is c^k (psi + delta) with ||psi|| = 1 and
-        ||delta|| <= D_k := sum_{j=1..k} eps * (1+eps)^(j-1) * g^(k-j)   (error born at CZ j, amplified by the k-j later ones)
-    (only the leaked part can really be amplified, the code part cannot, hence the tighter
-        D_k = eps_code * k * (1+eps)^(k-1) + eps_leak * sum_j (1+eps)^(j-1) g^(k-j)  is used.)
-    For a branch-resolved law p(o) = ||P_o (psi+delta)||^2 / ||P_code (psi+delta)||^2:
-        | ||P_o(psi+delta)||^2 - ||P_o psi||^2 | <= 2 D + D^2,   the same for the normaliser, hence
-        |p_impl - p| <= (2D + D^2) * (1 + p) / (1 - D)^2 <= 2 (2D + D^2) / (1 - D)^2.
-    """
+def law_tolerance_d(k, eps_code, eps_leak, c):
+    """Norm bound D_k on the relative error vector after k heralded CZs (see law_tolerance)."""
     if k == 0:
         return 0.0
     eps = eps_code + eps_leak
     g = 1.0 / c
-    d = eps_code * k * (1 + eps) ** (k - 1) + eps_leak * sum((1 + eps) ** (j - 1) * g ** (k - j) for j in range(1, k + 1))
-    return 2 * (2 * d + d * d) / (1 - d) ** 2
+    return eps_code * k * (1 + eps) ** (k - 1) + eps_leak * sum((1 + eps) ** (j - 1) * g ** (k - j) for j in range(1, k + 1))
+
+
+def law_tolerance(k, eps_code, eps_leak, c, p_ref=1.0):
+    """Bound on |p_impl(o) - p_qubit(o)| for every outcome o of a circuit with k heralded CZs.
+
+    Write each heralded CZ as c*(CZ + E) on code states; E splits into a part inside the code space,
+    ||E_code|| <= eps_code, and a part leaking to |20>, |02>, ||E_leak|| <= eps_leak.  Everything between
+    the CZs (beamsplitters, phase shifters, measurement projections, conditioned gates) is a contraction;
+    a later heralded CZ is c*(unitary + E) on code components but may map an arbitrary non-code
+    component with norm up to 1 = (1/c)*c, i.e. it can amplify a leaked component by at most g = 1/c
+    relative to the code component.  So the unnormalised final vector of any classical history is
+    c^k (psi + delta) with ||psi|| = 1 (summed over histories) and
+        ||delta|| <= D_k = eps_code * k * (1+eps)^(k-1) + eps_leak * sum_{j=1..k} (1+eps)^(j-1) g^(k-j),   eps = eps_code+eps_leak.
+    For the law p(o) = ||A_o (psi+delta)||^2 / sum_o' ||A_o' (psi+delta)||^2 of a trace-non-increasing
+    instrument {A_o} (code-space outcomes):
+        | ||A_o(psi+delta)||^2 - ||A_o psi||^2 | <= 2 D + D^2,  the same for the normaliser (Cauchy-Schwarz over the direct sum), hence
+        |p_impl(o) - p(o)| <= (2D + D^2) (1 + p(o)) / (1 - D)^2.
+    """
+    d = law_tolerance_d(k, eps_code, eps_leak, c)
+    return (2 * d + d * d) * (1 + p_ref) / (1 - d) ** 2
 
 
 if __name__ == "__main__":
